@@ -293,6 +293,35 @@ def work(job):
     return r
 
 
+# texts that do not start with a metadata block although a 'key: text' line comes early: nothing in them is metadata, so every line is body
+# and the default output is the snippet
+NOT_METADATA = [b'---\nplain text\nNote: marker1 is body\n\nBody marker2\n', b'***\nplain text\nNote: marker1 is body\n\nBody marker2\n',
+                b'Intro line\nNote: marker1 is body\n\nBody marker2\n', b'---\n\nNote: marker1 is body\n\nBody marker2\n', b'# Head\nNote: marker1 is body\n\nBody marker2\n',
+                b'```\nNote: marker1 is body\n```\n\nBody marker2\n']
+
+
+def work_not_metadata(job):
+    seed, = job
+    r = core.JobResult()
+    with core.Session(r) as s:
+        for src in NOT_METADATA:
+            for fmt in FORMATS:
+                c = Ctx(r, s, fmt, D.EXT_CLI)
+                S, F, Dd = c.out(src, E['SNIPPET']), c.out(src, E['COMPLETE']), c.out(src, 0)
+                if S is None or F is None or Dd is None:
+                    continue
+                r.stats['documents_without_metadata_checked'] += 1
+                r.distinct.add(('nm', src, fmt))
+                if Dd != S:
+                    r.violate('default-mode-wrong:%s:no-metadata' % fmt, 'a text without a metadata block is rendered as %s by default' % ('the complete document' if Dd == F else 'neither snippet nor complete document'),
+                              dict(requests=list(c.reqs[-3:])), core.show(src, 200))
+                for mk in (b'marker1', b'marker2'):
+                    if mk not in S or mk not in F:
+                        r.violate('body-line-taken-as-metadata:%s' % fmt, 'the line holding %s is missing from the %s rendering of a text that has no metadata block' % (mk.decode(), fmt), dict(requests=list(c.reqs[-3:])), core.show(src, 200))
+                        break
+    return r
+
+
 def main():
     chk = core.Check(ID)
     n = chk.scale(8000, 150000)
@@ -303,4 +332,5 @@ def main():
                        'bodies contain no [%var] or {{transclusion}} other than those the relation itself adds']
     chunk = max(20, n // 64)
     chk.run_jobs(work, [(chk.seed, lo, min(n, lo + chunk)) for lo in range(0, n, chunk)])
+    chk.run_jobs(work_not_metadata, [(chk.seed,)])
     return chk.finish()
